@@ -147,6 +147,7 @@ class ListV:
     stores: List[Tuple[Any, Any, tuple]] = field(default_factory=list)   # (index, value, binders) subscript stores
     alloc_len: Optional[Lin] = None     # [x] * n allocation
     alloc_elem: Any = None
+    unordered: bool = False             # a set: the elements are known, their iteration order is not
 
     def length(self) -> Optional[int]:
         if self.unknown:
@@ -781,6 +782,8 @@ class Interp:
                 if n <= self.UNROLL:
                     return [Lin(i) for i in range(it.lo.const, it.hi.const)]
             return None
+        if isinstance(it, ListV) and it.unordered and len(it.segs) > 1:
+            return None
         if isinstance(it, ListV) and not it.unknown:
             if all(not s.binders for s in it.segs) and len(it.segs) <= self.UNROLL:
                 return [s.elem for s in it.segs]
@@ -795,6 +798,8 @@ class Interp:
         return None
 
     def families(self, it: Any) -> Optional[List[Tuple[Any, List[Tuple[Sym, int]]]]]:
+        if isinstance(it, ListV) and it.unordered and len(it.segs) > 1:
+            return None
         if isinstance(it, RangeV) and it.count is not None:
             if it.count <= 0:
                 return []
@@ -1436,6 +1441,8 @@ class Interp:
                     return base.elem
                 return Lin.of(Fn(base.name, (idx,), 0, (1 << 64) - 1))
             return Unknown("list index")
+        if isinstance(base, ListV) and base.unordered:
+            return Unknown("subscript of a set")
         if isinstance(base, ListV):
             if isinstance(idx, Lin) and idx.is_const() and not base.unknown and all(not s.binders for s in base.segs):
                 i = idx.const
@@ -1579,6 +1586,11 @@ class Interp:
             if attr == "id":
                 return base.idx
             if attr == "first_quintant":
+                if base.idx.is_const():
+                    from . import codec as _codec
+                    tb = _codec.TABLES.get("first_quintant")
+                    if tb is not None and 0 <= base.idx.const < len(tb):
+                        return Lin(tb[base.idx.const])
                 return Lin.of(Fn("first_quintant", (base.idx,), self.fq_range[0], self.fq_range[1]))
             return Unknown(f"origin.{attr}")
         if isinstance(base, FuncRef) and base.module == "<module>":
@@ -1766,6 +1778,50 @@ class Interp:
                         n = max(0, -(-span.const // args[2].const))
                         return RangeV(args[0], args[1], args[2].const, n)
             return Unknown("range")
+        if name in ("set", "frozenset") and len(args) == 1 and not kwargs and isinstance(args[0], ListV) and not args[0].unknown \
+                and not args[0].stores and all(not sg.binders and isinstance(sg.elem, Lin) for sg in args[0].segs):
+            uniq: List[Any] = []
+            for sg in args[0].segs:
+                dup = False
+                for u in uniq:
+                    d_ = compare(sg.elem, "==", u)
+                    if d_ is None:
+                        return Unknown("set of values whose equality is not decided")
+                    if d_:
+                        dup = True
+                        break
+                if not dup:
+                    uniq.append(sg.elem)
+            return ListV([Seg(u) for u in uniq], unordered=True)
+        if name == "sorted" and len(args) == 1 and isinstance(args[0], ListV) and not args[0].unknown and not args[0].stores \
+                and all(not sg.binders and isinstance(sg.elem, Lin) for sg in args[0].segs) and set(kwargs) <= {"key", "reverse"}:
+            elems = [sg.elem for sg in args[0].segs]
+            keys = elems
+            kf = kwargs.get("key")
+            if kf is not None:
+                if not isinstance(kf, FuncRef):
+                    return Unknown("sorted with a key that is not a named function")
+                keys = []
+                for x in elems:
+                    kv = self.call_ref(kf, [x], {}, state, node, "")
+                    if not isinstance(kv, Lin):
+                        return Unknown("sort key not determined")
+                    keys.append(kv)
+            rev = kwargs.get("reverse", False)
+            if not isinstance(rev, bool):
+                return Unknown("sorted with an undecided reverse flag")
+            order: List[int] = []
+            for i_, k_ in enumerate(keys):        # stable insertion sort on decided comparisons
+                pos = len(order)
+                for j_, o_ in enumerate(order):
+                    lt = compare(k_, "<", keys[o_]) if not rev else compare(k_, ">", keys[o_])
+                    if lt is None:
+                        return Unknown("sorted: order of two elements not decided")
+                    if lt:
+                        pos = j_
+                        break
+                order.insert(pos, i_)
+            return ListV([Seg(elems[i_]) for i_ in order])
         if name == "sum" and len(args) in (1, 2) and not kwargs:
             a0 = args[0]
             if isinstance(a0, GenV):
